@@ -1,7 +1,7 @@
 SPECIFICATION Spec
 CONSTANTS Wirings = {"plain", "tunnel"} Kinds = {"basic", "cache", "tunnel"} MaxTasks = 2 MaxCaches = 1 MaxSocks = 1 MaxBoot = 1
-          InitAwaited = TRUE UnloadRemovesPending = TRUE
-          WrapperForwardsRemove = FALSE CryptoListenerRemoved = TRUE RemovalAwaited = TRUE
+          InitAwaited = TRUE UnloadRemovesPending = FALSE
+          WrapperForwardsRemove = TRUE CryptoListenerRemoved = TRUE RemovalAwaited = TRUE
 INVARIANT TypeOK
 INVARIANT LoadedReachable
 INVARIANT SilentAfterUnload
